@@ -238,8 +238,19 @@ fn deref<'a>(schema: &'a Value, defs: &'a Defs, depth: u32) -> &'a Value {
                 return deref(t, defs, depth + 1);
             }
         }
+        // allOf [ X ] with sibling annotations (schemars' spelling of "X with a default")
+        if let Some(Value::Array(a)) = schema.get("allOf") {
+            if a.len() == 1 {
+                return deref(&a[0], defs, depth + 1);
+            }
+        }
     }
     schema
+}
+
+fn is_reference(schema: &Value) -> bool {
+    schema.get("$ref").is_some()
+        || matches!(schema.get("allOf"), Some(Value::Array(a)) if a.len() == 1 && a[0].get("$ref").is_some())
 }
 
 fn payload_kind(schema: &Value, defs: &Defs) -> &'static str {
@@ -389,7 +400,11 @@ fn kind_inner(schema: &Value, value: Option<&Value>, defs: &Defs, depth: u32) ->
             return oneof_class(vs, value, defs, depth).replace("oneOf", key);
         }
     }
-    if o.contains_key("allOf") {
+    if let Some(Value::Array(a)) = o.get("allOf") {
+        // allOf [ $ref ] with sibling annotations is how schemars writes a reference with a default
+        if a.len() == 1 && depth < 8 {
+            return kind_inner(&a[0], value, defs, depth + 1);
+        }
         return "allOf".into();
     }
     match o.get("type") {
@@ -578,9 +593,12 @@ pub fn invalid_atoms(schema: &Value, value: &Value, defs: &Defs, depth: u32, out
         }
     }
     if out.len() == before {
-        // shallow description of this node with its value kind
+        // shallow description of this node with its value kind; `nested>` marks a
+        // part inside a larger default value (typify validates those by the
+        // member's TYPE, without the member schema's own keywords)
         let k = kind_inner(s, None, defs, 9);
-        let k = if schema.get("$ref").is_some() { format!("ref>{k}") } else { k };
+        let k = if is_reference(schema) { format!("ref>{k}") } else { k };
+        let k = if depth > 0 { format!("nested>{k}") } else { k };
         out.insert(format!("{k}/{}", value_kind(value)));
     }
 }
